@@ -247,11 +247,12 @@ fn execute(plan: &Value, w: &World, cfg: &Cfg, slot: usize) -> Outcome {
     // pre-existing output
     std::fs::create_dir_all(dir.join("sub")).unwrap();
     let sink_full = plan["sink"] == "dev-full";
+    let oname = plan["output_name"].as_str().unwrap_or("out.json");
     let (out_path, out_arg) = match plan["output_form"].as_str() {
         _ if sink_full => (PathBuf::from("/dev/full"), "/dev/full".to_string()),
-        Some("rel") => (dir.join("out.json"), "out.json".to_string()),
-        Some("rel-sub") => (dir.join("sub").join("out.json"), "sub/../sub/out.json".to_string()),
-        _ => (dir.join("out.json"), dir.join("out.json").display().to_string()),
+        Some("rel") => (dir.join(oname), oname.to_string()),
+        Some("rel-sub") => (dir.join("sub").join(oname), format!("sub/../sub/{}", oname)),
+        _ => (dir.join(oname), dir.join(oname).display().to_string()),
     };
     let pre: Option<Vec<u8>> = match plan["output"].as_str() {
         Some("text") => Some(OLD_TEXT.to_vec()),
@@ -331,9 +332,17 @@ fn execute(plan: &Value, w: &World, cfg: &Cfg, slot: usize) -> Outcome {
     // (/dev/full reads as an endless stream of zeros: never read it back)
     let after: Option<Vec<u8>> = if sink_full { None } else { std::fs::read(&out_path).ok() };
 
+    // files next to the output that were not there before
+    let strays: Vec<String> = if sink_full { vec![] } else {
+        let parent = out_path.parent().unwrap_or(&dir).to_path_buf();
+        std::fs::read_dir(&parent).map(|rd| rd.filter_map(|e| e.ok()).map(|e| e.file_name().to_string_lossy().to_string()).filter(|n| n != oname && n != "sub" && !n.starts_with("written") && n != "A" && n != "B").collect()).unwrap_or_default()
+    };
     let mut v: Vec<Violation> = vec![];
     let mut push = |class: &str, detail: String| v.push(Violation { class: class.to_string(), detail });
     let exit_ok = code == Some(0);
+    if !strays.is_empty() && !plan["output"].is_null() {
+        push("output-written-elsewhere", format!("files appeared next to the --output path {:?}: {:?}", oname, strays));
+    }
     if timed_out {
         push("hang", "the binary did not exit within 90 s although the endpoint never stalls".into());
     }
@@ -561,7 +570,7 @@ fn minimise(p: &Value, class: &str, w: &World, cfg: &Cfg, slot: usize, budget: u
             i += 1;
         }
     }
-    for (k, val) in [("authorization", Value::Null), ("no_ssl", json!(false)), ("is_one_of", json!(false)), ("specify_by_url", json!(false)), ("url_first", json!(true)), ("header_eq", json!(true)), ("path", json!("/graphql")), ("env", json!("clean")), ("output_form", json!("abs")), ("sink", json!("normal")), ("arg_order", json!(0)), ("arg_forms", json!(0))] {
+    for (k, val) in [("authorization", Value::Null), ("no_ssl", json!(false)), ("is_one_of", json!(false)), ("specify_by_url", json!(false)), ("url_first", json!(true)), ("header_eq", json!(true)), ("path", json!("/graphql")), ("env", json!("clean")), ("output_form", json!("abs")), ("sink", json!("normal")), ("output_name", json!("out.json")), ("arg_order", json!(0)), ("arg_forms", json!(0))] {
         let mut c = best.clone();
         c[k] = val;
         try_plan(c, &mut best, &mut attempts);
